@@ -143,7 +143,8 @@ type Ctx struct {
 	// Assumed lists receiver fields assumed non-negative.
 	Assumed map[string]bool
 	// Side: terms known >= 0 that arise from the conversion itself (integer division).
-	Side []Lin
+	Side     []Lin
+	sideDone map[string]bool
 }
 
 // NewCtx creates a conversion context.
@@ -346,6 +347,20 @@ func (c *Ctx) lin1(v, v0 ssa.Value) Lin {
 		// methods named …Size/…Length/Len/Overhead/NonceSize return non-negative sizes
 		n := guard.CalleeName(&x.Call)
 		a := c.name(v)
+		// i := strings.Index(s, sep) and friends: i <= len(s)-1 whatever the outcome (-1 included);
+		// kept as a side fact so that s[i+1:] / s[:i] after `i < 0 -> return` are in bounds
+		switch n {
+		case "strings.Index", "strings.LastIndex", "strings.IndexByte", "strings.LastIndexByte", "strings.IndexRune", "strings.IndexAny",
+			"bytes.Index", "bytes.LastIndex", "bytes.IndexByte", "bytes.LastIndexByte", "bytes.IndexRune", "bytes.IndexAny":
+			if !c.sideDone[a] {
+				if c.sideDone == nil {
+					c.sideDone = map[string]bool{}
+				}
+				c.sideDone[a] = true
+				c.Side = append(c.Side, c.LenOf(x.Call.Args[0]).add(atom(a), -1).add(konst(1), -1))
+			}
+			return atom(a)
+		}
 		if i := strings.LastIndex(n, "."); i >= 0 {
 			m := n[i+1:]
 			if strings.HasSuffix(m, "Size") || strings.HasSuffix(m, "Len") || strings.HasSuffix(m, "Length") || m == "Overhead" || strings.HasSuffix(m, "SizeInBytes") {
@@ -464,14 +479,14 @@ func (c *Ctx) FactsToLin(facts []guard.Fact) []Lin {
 		}
 		if ex, isEx := f.Cond.(*ssa.Extract); isEx && f.True && ex.Index == 1 {
 			if call, isCall := ex.Tuple.(*ssa.Call); isCall {
-				if n := guard.CalleeName(&call.Call); n == "bytes.CutPrefix" || n == "bytes.CutSuffix" {
+				if n := guard.CalleeName(&call.Call); n == "bytes.CutPrefix" || n == "bytes.CutSuffix" || n == "strings.CutPrefix" || n == "strings.CutSuffix" {
 					out = append(out, c.LenOf(call.Call.Args[0]).add(c.LenOf(call.Call.Args[1]), -1))
 				}
 			}
 		}
 		if call, val, ok := guard.BoolCallFact(f); ok && val {
 			switch guard.CalleeName(&call.Call) {
-			case "bytes.HasPrefix", "bytes.HasSuffix":
+			case "bytes.HasPrefix", "bytes.HasSuffix", "strings.HasPrefix", "strings.HasSuffix":
 				out = append(out, c.LenOf(call.Call.Args[0]).add(c.LenOf(call.Call.Args[1]), -1))
 			case "bytes.Equal", "slices.Equal", "crypto/hmac.Equal":
 				a, b := c.LenOf(call.Call.Args[0]), c.LenOf(call.Call.Args[1])
